@@ -15,27 +15,4 @@ macro_rules! with_k {
     };
 }
 
-pub fn k_of(name: &str) -> usize {
-    match name {
-        "Kmer2" => 2,
-        "Kmer3" => 3,
-        "Kmer4" => 4,
-        "Kmer5" => 5,
-        "Kmer6" => 6,
-        "Kmer8" => 8,
-        "Kmer10" => 10,
-        "Kmer12" => 12,
-        "Kmer14" => 14,
-        "Kmer15" => 15,
-        "Kmer16" => 16,
-        "Kmer20" => 20,
-        "Kmer24" => 24,
-        "Kmer30" => 30,
-        "KmerK31" => 31,
-        "Kmer32" => 32,
-        "Kmer40" => 40,
-        "Kmer48" => 48,
-        "Kmer64" => 64,
-        _ => panic!("unknown k-mer type {}", name),
-    }
-}
+pub use simcore::spec::k_of;
